@@ -547,6 +547,16 @@ _amend("C20",
        "stand-in scrolls structured content (columns split into rows differently, nested scrollables) cell-exactly incl. attributes.")
 
 
+_amend("C07",
+       "Key navigation: keypress (the key is offered to the focus widget only, once, at the rendered size; an unhandled key and a key bound to no list command come back with nothing changed; each list "
+       "command goes to its procedure once), _keypress_up / _keypress_down (the nearest listed selectable item takes the focus where it is pulled into the box, else the view scrolls by one row, else the "
+       "key comes back at the end of the list with nothing changed; afterwards the scroll state is sane and a focus row is inside the box), _keypress_max_left / right, make_cursor_visible, ends_visible, "
+       "update_pref_col_from_focus; page up / page down*: always handled, scroll state sane, still a focus (safety clauses only). mouse_event now rests on the verified calculate_visible and key contracts.",
+       note_replace=[("a pending focus change inside calculate_visible, page up / page down: bounded only", "a pending focus change inside calculate_visible / keypress, which candidate page up / page down pick and how far the view moves: bounded only")])
+_amend("C08", "ListBox.keypress / _keypress_up / _keypress_down / update_pref_col_from_focus (C07's contracts) also run here.",
+       note_replace=[("ListBox.keypress / render round trips", "ListBox render round trips")])
+
+
 PENDING = "contracts for this property are not built yet in this commit (see DESIGN.md §6 for the plan); no check is claimed"
 
 
